@@ -135,6 +135,24 @@ def group_unicode(root, repo, pid, P, tier):
                 reason = line[8:]
     except Exception as e:   # build problem, timeout
         out, st, reason = str(e), "undecided", str(e)
+    if tier != "thorough":
+        # script disjointness: the complete Kani harness takes about 4 minutes and runs in the thorough tier; the quick tier
+        # runs the same clause as an exhaustive native sweep (all 1,112,064 scalars x 163 scripts) - enumerative, not counted as proved
+        t1 = time.time()
+        try:
+            p2 = rp._unicode_search(root, repo, ["scripts_pairwise_disjoint"], timeout=900)
+            st2 = "ok" if "NO-WITNESS" in p2.stdout else ("failed" if "WITNESS" in p2.stdout else "undecided")
+            reason2 = ""
+            for line in p2.stdout.split("\n"):
+                if line.startswith("WITNESS "):
+                    reason2 = line[8:]
+            out2 = p2.stdout + p2.stderr
+        except Exception as e:
+            out2, st2, reason2 = str(e), "undecided", str(e)
+        final.append(dict(harness="scripts_pairwise_disjoint_sweep", kind="enum", status=st2, reason=reason2 or out2[-300:], output=out2[-2000:], complete=False,
+                          what="no scalar value is matched by two of the 163 script rules (the clause of the thorough-tier Kani harness scripts_pairwise_disjoint)",
+                          bound="exhaustive native sweep (1,112,064 scalars x 163 scripts) on the real code - enumerative, not a deductive proof",
+                          wall_s=time.time() - t1, cmd="cargo run --release (out/unicode_search) -- scripts_pairwise_disjoint"))
     final.append(dict(harness="names_resolve_and_agree", status=st, reason=reason or out[-300:], output=out[-2000:], complete=False,
                       what="every advertised property name is listed, resolves through unicode::by_name and agrees with its function on every scalar value; the grammar validator accepts it as a built-in; pest_vm and a derive-generated parser resolve it to the same function (compared at every range edge and on a stride sample)",
                       bound="exhaustive native enumeration (names x 1,112,064 scalars) on the real code - an enumerative stand-in, not a deductive proof",
@@ -151,7 +169,7 @@ INMOD = {
              "find_line_start == ls (the contract ASSUMED in the lines unit) for every string of <= 3 characters over {a, \\n, \\r, é, €} and every boundary offset", "<= 3 characters from a 5-character mixed-width alphabet, unwind 11"),
             ("position::verif_kani::find_line_end_chars3", "quick", False,
              "find_line_end == le (ASSUMED in the lines unit), same bound", "<= 3 characters from a 5-character mixed-width alphabet, unwind 11"),
-            ("position::verif_kani::line_col_chars3", "quick", False,
+            ("position::verif_kani::line_col_chars3", "thorough", False,
              "Position::line_col == (1 + newlines, 1 + characters since the last newline), same bound", "<= 3 characters from a 5-character mixed-width alphabet, unwind 11"),
             ("position::verif_kani::position_line_col_bounded_3", "thorough", False,
              "Position::line_col equals (1 + newlines, 1 + characters since the last newline) - every valid UTF-8 string of <= 3 bytes, every boundary offset", "strings <= 3 bytes, unwind 6"),
